@@ -1,5 +1,7 @@
 import KoordVerif.Model.C08
 import KoordVerif.Proofs.C08ExtConcThm
+import KoordVerif.Proofs.C08ExtGlue
+import KoordVerif.Proofs.C08ExtAgg
 /-
 C08 — property theorems (DESIGN.md §4 C08).
  1. deletePod is the exact inverse of addPod (same metric in force)                  `delete_add_inverse`
@@ -655,6 +657,60 @@ theorem conc_two_cleanups_three_attempts_ok (s : St)
     (h : Reach { asWritten with bound := 3 } (start (some (true, false, false)) [.assign] [.delMetric, .setMetric, .delMetric]) s)
     (hq : s.quiescent = true) : s.view.2.2 = true :=
   two_cleanups_three_attempts_ok s h hq
+
+/-! ### 6. the glue from *corev1.Pod to the cache's projection (Model/C08Glue.lean; proofs in Proofs/C08ExtGlue.lean) -/
+
+/-- the class of a pod is always prod / mid / batch / free -/
+theorem glue_class_range (s : ClassShape) (hk : s.kubeQos = 1 ∨ s.kubeQos = 2 ∨ s.kubeQos = 3) :
+    1 ≤ resolveClass s ∧ resolveClass s ≤ 4 := resolveClass_range s hk
+
+/-- a known priority-class label decides the class -/
+theorem glue_class_label (s : ClassShape) (h1 : 1 ≤ s.prioLabel) (h4 : s.prioLabel ≤ 4) : resolveClass s = s.prioLabel :=
+  resolveClass_label s h1 h4
+
+/-- a priority-class label with an unknown text hides Spec.Priority (written as it is in the source) -/
+theorem glue_class_unknown_label (s : ClassShape) (h : 4 < s.prioLabel) : resolveClass s = classByQos (qosOf s) :=
+  resolveClass_unknown_label s h
+
+/-- without a label an in-band Spec.Priority decides -/
+theorem glue_class_priority (s : ClassShape) (p : Int) (h0 : s.prioLabel = 0) (hp : s.prio = some p)
+    (hb : classByPriority p ≠ 0) : resolveClass s = classByPriority p := resolveClass_priority s p h0 hp hb
+
+/-- the effective request/limit of a pod covers the sum of its containers and every single init container -/
+theorem glue_requests_cover (cs : List Int) (inits : List InitC) (hv : ∀ c ∈ inits, 0 ≤ c.v) :
+    cs.foldl (· + ·) 0 ≤ aggregate cs inits ∧ ∀ c ∈ inits, c.v ≤ aggregate cs inits :=
+  ⟨aggregate_ge_containers cs inits hv, fun c hc => aggregate_ge_init cs inits hv c hc⟩
+
+/-- a scaling-factor annotation that encoding/json rejects leaves the configured factors in force -/
+theorem glue_malformed_factors_ignored (cfg : Cfg) (p : PodDesc) (kind : Nat) (fs : List (Option Int)) (hk : kind ≠ 1) :
+    factorsFor cfg { p with customFactors := parseFactors kind fs } = cfg.factors :=
+  malformed_factors_ignored cfg p kind fs hk
+
+/-- an init container larger than all containers together sets the request: 2 containers 100+200, init 500, sidecar 50
+before it -> 550; overhead 10 on top; a zero limit gets no overhead -/
+example : podRequest [100, 200] [⟨true, 50⟩, ⟨false, 500⟩] none 10 = 560 ∧ podLimit [0, 0] [] none 10 = 0 := by decide
+
+/-! ### 7. aggregated profile: which usage is read (proofs in Proofs/C08ExtAgg.lean) -/
+
+theorem agg_profile_cell_used (cfg : Cfg) (n : Node) (m : Metric) (typ dur : Nat) (u : Vec) (hm : n.metric = some m)
+    (ht : typ ≠ 0) (hi : m.hasInfo = true) (hu : aggLookup m typ dur = some u) :
+    estimatedOfExisting cfg n false typ dur = some (m, vadd (vadd (vzero cfg.d) u) n.sums.nodeDelta) :=
+  agg_cell_used cfg n m typ dur u hm ht hi hu
+
+theorem agg_profile_dur0_node_usage (cfg : Cfg) (n : Node) (m : Metric) (typ : Nat) (hm : n.metric = some m)
+    (ht : typ ≠ 0) (hi : m.hasInfo = true) (hu : aggLookup m typ 0 = none) :
+    estimatedOfExisting cfg n false typ 0 = some (m, vadd (vadd (vzero cfg.d) m.nodeUsage) n.sums.nodeDelta) :=
+  agg_dur0_falls_back_to_node_usage cfg n m typ hm ht hi hu
+
+/-- explicit duration, cell not reported: the sum of FULL estimates without any usage (as written in the source). -/
+theorem agg_profile_missing_cell (cfg : Cfg) (n : Node) (m : Metric) (typ dur : Nat) (hm : n.metric = some m)
+    (ht : typ ≠ 0) (hd : dur ≠ 0) (hu : aggLookup m typ dur = none) :
+    estimatedOfExisting cfg n false typ dur = some (m, vadd (vzero cfg.d) n.sums.nodeEst) :=
+  agg_missing_cell_full_estimates cfg n m typ dur hm ht hd hu
+
+/-- vectors of any length: three thresholded resources, the third one is over -/
+example : exceeds exactFloat [50, 50, 50] [10, 10, 60] [100, 100, 100] = true ∧
+    exceeds exactFloat [50, 50, 0] [10, 10, 60] [100, 100, 100] = false := by decide
 
 /-! ### non-vacuity -/
 
